@@ -38,11 +38,63 @@ def plan(tier):
             ("dim1", 2, (2000 if tier == "quick" else 40000) // 2)]
 
 
-def make(n, m, lo=None, hi=None):
+VIAS = ("ctor", "ctor", "ctor", "setbounds", "used-setbounds", "history")
+vias = st.sampled_from(VIAS)
+
+
+class HistoryEvolvent:
+    """A real Evolvent reached through a history: the properties quantify over every query on an object
+    configured for (box, N, m), however it got there.  Every query is preceded by the same query, by a query of
+    the other direction and by a SetBounds round trip through another box; the answer handed to the oracle is the
+    object's answer to the final, real query."""
+
+    def __init__(self, ev, lo, hi):
+        self.ev, self.lo, self.hi = ev, list(lo), list(hi)
+        self.other = ([a - 3.0 * (b - a) - 1.0 for a, b in zip(lo, hi)], [b + 2.0 * (b - a) + 0.5 for a, b in zip(lo, hi)])
+        self.mid = [(a + b) / 2.0 for a, b in zip(lo, hi)]
+
+    def _churn(self, replay):
+        replay()
+        self.ev.GetInverseImage(list(self.mid))
+        self.ev.GetImage(0.3)
+        self.ev.SetBounds(list(self.other[0]), list(self.other[1]))
+        replay()
+        self.ev.SetBounds(list(self.lo), list(self.hi))
+
+    def GetImage(self, x):
+        self._churn(lambda: self.ev.GetImage(x))
+        return self.ev.GetImage(x)
+
+    def GetInverseImage(self, y):
+        import copy
+        self._churn(lambda: self.ev.GetInverseImage(copy.copy(y)))
+        return self.ev.GetInverseImage(y)
+
+    def GetPreimages(self, y):
+        import copy
+        self._churn(lambda: self.ev.GetPreimages(copy.copy(y)))
+        return self.ev.GetPreimages(y)
+
+
+def make(n, m, lo=None, hi=None, via="ctor"):
+    """Evolvent for (box, N, m), configured through the constructor, through SetBounds (on a new or an already
+    used object), or driven through a query history (HistoryEvolvent)."""
     from iOpt.evolvent.evolvent import Evolvent
     if lo is None:
         lo, hi = evo.unit_bounds(n)
-    return Evolvent(lo, hi, n, m)
+    if via == "ctor":
+        return Evolvent(lo, hi, n, m)
+    if via == "history":
+        return HistoryEvolvent(Evolvent(lo, hi, n, m), lo, hi)
+    olo = [a + 0.25 * (b - a) - 1.0 for a, b in zip(lo, hi)]
+    ohi = [b + 1.5 * (b - a) + 2.0 for a, b in zip(lo, hi)]
+    ev = Evolvent(olo, ohi, n, m)
+    if via == "used-setbounds":
+        y = ev.GetImage(0.7)
+        ev.GetInverseImage(y)
+        ev.GetImage(0.0)
+    ev.SetBounds(list(lo), list(hi))
+    return ev
 
 
 def exhaustive(ctx):
@@ -118,7 +170,7 @@ def deep_cases(draw):
     nm = n * m
     kind = draw(st.sampled_from(["index", "index", "index", "double", "one"]))
     lo, hi = draw(evo.evo_boxes(n, m))
-    case = {"n": n, "m": m, "lower": lo, "upper": hi, "kind": kind}
+    case = {"n": n, "m": m, "lower": lo, "upper": hi, "kind": kind, "via": draw(vias)}
     if kind == "index":
         case["i"] = draw(evo.indices(nm))
         case["offs"] = [draw(evo.offsets(nm)) for _ in range(3)]
@@ -133,8 +185,9 @@ def deep_body(case):
     n, m, lo, hi = case["n"], case["m"], case["lower"], case["upper"]
     nm = n * m
     T = 1 << nm
-    ev = make(n, m, lo, hi)
-    evu = make(n, m)
+    via = case.get("via", "ctor")
+    ev = make(n, m, lo, hi, via)
+    evu = make(n, m, None, None, via)
     if case["kind"] == "index":
         i = case["i"]
         xs = [evo.x_of(evo.num_first(i, nm) + o) for o in [0] + case["offs"]]
@@ -180,7 +233,8 @@ def deep_body(case):
         if msg:
             fail(msg)
     tailpos = "head" if i == 0 else ("last" if i == T - 1 else ("tail<2e6" if T - 1 - i <= 2_000_000 else "inner"))
-    classes = ["N=%d" % n, "Nm>=20" if nm >= 20 else "Nm<20", "kind=" + case["kind"], "index=" + tailpos]
+    classes = ["N=%d" % n, "Nm>=20" if nm >= 20 else "Nm<20", "kind=" + case["kind"], "index=" + tailpos,
+               "via=" + via]
     return (i not in (0, T - 1) and nm >= 20), classes
 
 
@@ -194,7 +248,7 @@ def dim1_cases(draw):
     m = draw(st.integers(1, 50))
     b = draw(gen.boxes(1))
     kind = draw(st.sampled_from(["index", "double", "one"]))
-    case = {"m": m, "lower": b["lower"], "upper": b["upper"], "kind": kind}
+    case = {"m": m, "lower": b["lower"], "upper": b["upper"], "kind": kind, "via": draw(vias)}
     if kind == "index":
         case["i"] = draw(evo.indices(m))
         case["off"] = draw(evo.offsets(m))
@@ -206,7 +260,7 @@ def dim1_cases(draw):
 def dim1_body(case):
     m, lo, hi = case["m"], case["lower"][0], case["upper"][0]
     T = 1 << m
-    ev = make(1, m, [lo], [hi])
+    ev = make(1, m, [lo], [hi], case.get("via", "ctor"))
     if case["kind"] == "index":
         x = evo.x_of(evo.num_first(case["i"], m) + case["off"])
     elif case["kind"] == "double":
@@ -222,7 +276,7 @@ def dim1_body(case):
     a, b = lo + i * w / T, lo + (i + 1) * w / T
     if not (a - t <= y <= b + t):
         fail("N=1, m=%d: image %r of x=%r (subinterval %d) lies outside its cell [%r, %r]" % (m, y, x, i, a, b))
-    return (0 < i < T - 1), ["N=1", "kind=" + case["kind"]]
+    return (0 < i < T - 1), ["N=1", "kind=" + case["kind"], "via=" + case.get("via", "ctor")]
 
 
 def dim1(ctx):
